@@ -8,7 +8,7 @@ SS = "lib/tip911-stakeset/src/lib.rs"
 SM = "src/smtmapping.rs"
 UNIT = Unit(
     name="seal", lemma_obs=['lemma_chain_next'], uses="group_core_axioms",
-    prelude=["core.rs", "raw.rs", "iter.rs", "crypto.rs", "state_abs.rs"],
+    prelude=["core.rs", "raw.rs", "iter.rs", "crypto.rs", "state_abs.rs", "std_extra.rs"],
     lemmas=["sums.rs", "iterlem.rs", "coinsview.rs", "supply.rs", "tips.rs", "apply.rs", "header.rs", "txroot_opaque.rs", "seal_opaque.rs", "stateinv.rs", "batch_opaque.rs", "sealenv_opaque.rs", "chaininv.rs", "chainlem.rs", "seal_def.rs", "feemul.rs"],
     items=[
         TypeItem(S, "struct", "UnsealedState"),
